@@ -257,7 +257,7 @@ def _judge(obs, who, res, n, edges, ref, forest_allowed, back=None):
     return total
 
 
-def _run_graph(case, obs, budget=600_000):
+def _run_graph(case, obs, budget=100_000):  # observed maximum on the unchanged tree: ~1 300 steps
     from random import Random
 
     from vf.common import call, is_crash
